@@ -385,7 +385,7 @@ impl Gen {
                 2 => Op { op: "b_from_vec".into(), a: abs(n), b: abs(self.r.below(4)), mode: (self.r.below(3) == 0) as i64, ..Default::default() },
                 3 => Op { op: "b_from_box".into(), a: abs(n), ..Default::default() },
                 4 => Op { op: "b_copy".into(), a: abs(n), ..Default::default() },
-                5 => Op { op: "b_from_owner".into(), a: abs(n.max(1)), mode: if self.r.chance(10) { 1 } else if self.r.chance(15) { 2 } else { 0 }, ..Default::default() },
+                5 => Op { op: "b_from_owner".into(), a: abs(n.max(1)), mode: if self.r.chance(10) { 1 } else if self.r.chance(15) { 2 } else if self.r.chance(12) { 3 } else { 0 }, ..Default::default() },
                 6 => Op { op: "m_new".into(), ..Default::default() },
                 7 => Op { op: "m_with_capacity".into(), a: abs(self.r.below(2 * self.maxlen + 1)), ..Default::default() },
                 8 => Op { op: "m_zeroed".into(), a: abs(n), ..Default::default() },
@@ -429,7 +429,25 @@ impl Gen {
                                 2 | 3 => 3,
                                 _ => 0,
                             };
-                            let o = live[self.r.below(live.len())];
+                            let mut o = live[self.r.below(live.len())];
+                            let (mut x, mut y) = (x, y);
+                            if mode == 3 {
+                                // a sub-slice of ANOTHER handle: preferably one on the same buffer, with a
+                                // range over its own length (it may start inside self and run past its end)
+                                let me = m.view(h);
+                                let sh: Vec<usize> = live
+                                    .iter()
+                                    .copied()
+                                    .filter(|&g| g != h && matches!(m.hs[g], Some(H::B(_))) && m.view(g).map(|w| me.as_ref().map(|v| v.a == w.a && v.a != -100).unwrap_or(false)).unwrap_or(false))
+                                    .collect();
+                                if !sh.is_empty() && self.r.chance(70) {
+                                    o = sh[self.r.below(sh.len())];
+                                }
+                                if let Some(w) = m.view(o) {
+                                    x = self.r.below(w.len + 1);
+                                    y = x + self.r.below(w.len - x + 1);
+                                }
+                            }
                             Op { op: "b_slice_ref".into(), h, o, a: abs(x), b: abs(y), mode, ..Default::default() }
                         }
                         3 if room => Op { op: "b_split_off".into(), h, a: self.index(len), ..Default::default() },
